@@ -241,7 +241,9 @@ def diffctx(a, b):
 
 def named_unicode_escape(x): return "\\N{" in x[2]
 def trailing_backslash(x): return x[2].rstrip(" \t\n\f").endswith(chr(92)) and x[3].startswith("accepted a text")
-MATCHERS = {"c06.named_unicode_escape": named_unicode_escape, "c06.trailing_backslash_at_eof": trailing_backslash}
+def bare_generator_argument(x):
+    return x[3].startswith("accepted a text") and re.search(r"\w\s*\((?:[^()]*,\s*)?[^(),]*\bfor\b[^()]*\bin\b[^()]*(?:,[^()]*)?\)", flat(x[2])) is not None
+MATCHERS = {"c06.named_unicode_escape": named_unicode_escape, "c06.trailing_backslash_at_eof": trailing_backslash, "c06.bare_generator_argument": bare_generator_argument}
 
 def replay(path):
     d = json.load(open(path)); print(json.dumps(d, indent=1)[:3000]); return 1
